@@ -792,6 +792,8 @@ func Eval(c *core.Ctx, line string) *core.Case {
 	switch {
 	case len(f) >= 3 && f[0] == "dhcp.restart":
 		return evalRestart(c, f)
+	case len(f) >= 3 && f[0] == "dhcp.rsim":
+		return evalRsim(c, f)
 	case len(f) >= 5 && (f[0] == "dhcp.load" || f[0] == "dhcp.loadlegacy"):
 		return evalLoad(c, f)
 	}
@@ -935,6 +937,8 @@ func Gen(c *core.Ctx) {
 			c.Add(*cs)
 		}
 	}
+	// histories with restarts in the middle, step by step against the process model of Props/C18Restart
+	genRsim(c)
 	// fault enumeration over the files those histories left behind
 	files := saved
 	sort.SliceStable(files, func(i, j int) bool {
